@@ -144,6 +144,31 @@ def conc_templates():
                     out.append({'id': 'cc-%s-%04d' % (sname, n), 'family': 'conc', 'conf': c, 'ops': ops,
                                 'keys': {'a': 'a', 'b': 'b', 'c': 'c'}})
                     n += 1
+    # a pass over a JUST ROTATED file whose post-rotation flusher has not run yet: the tail of that file is still in the
+    # write buffer when the pass starts (finding F15; merge off = the admin default)
+    for fm in (2, 3):
+        for nover in (0, 1, 2):
+            for headflush in (True, False):
+                for rng_ in ((0, 0), (0, -1)):
+                    ops = []
+                    v = 1
+                    names = ['a', 'b', 'c'][:fm]
+                    for k in names:                       # fills file 0 (nothing flushed yet)
+                        ops.append({'op': 'set', 'k': k, 'v': v, 'nblk': 1})
+                        v += 1
+                    for k in names[:nover]:               # supersedes some of them: rotates, file 0 keeps its buffered tail
+                        ops.append({'op': 'set', 'k': k, 'v': v, 'nblk': 1})
+                        v += 1
+                    if nover == 0:
+                        ops.append({'op': 'set', 'k': 'd', 'v': v, 'nblk': 1})
+                    if headflush:
+                        ops.append({'op': 'flush'})       # the head only; file 0's flusher stays parked
+                    ops.append({'op': 'gc', 'begin': rng_[0], 'end': rng_[1], 'merge': False, 'keeprot': True})
+                    ops += [{'op': 'rotflush', 'c': 0}, {'op': 'readall'}, {'op': 'close'}, {'op': 'open', 'rm': ['*.idx.hash']}, {'op': 'readall'}]
+                    out.append({'id': 'cr-%04d' % n, 'family': 'conc',
+                                'conf': dict(filemax_blk=fm, splitcap=3, bodymax_blk=1, rotflush='manual', buckets=16, bucket=15, height=3, micro=False),
+                                'ops': ops, 'keys': {'a': 'a', 'b': 'b', 'c': 'c', 'd': 'd'}})
+                    n += 1
     return out
 
 
@@ -245,7 +270,8 @@ def run(pid, tier, seed, work, log, replay=None):
         if pid == 'C05':
             gated = conc_templates()
             if tier == 'quick':
-                gated = rng.sample(gated, 320)
+                always = [g for g in gated if g['id'].startswith('cr-')]        # (24: pass over a just rotated file)
+                gated = rng.sample([g for g in gated if not g['id'].startswith('cr-')], 320) + always
         free = free_scenarios(rng, {'quick': 24, 'thorough': 300}[tier], pid, '%s-free-%d' % (pid.lower(), seed))
         fixed = os.path.join(V.VERIF, 'scenarios', 'fixed', pid)
         if os.path.isdir(fixed):
